@@ -69,6 +69,12 @@ def run(ctx):
                 A = E[:]                   # identical content under every option set
             apath = rng.random() < 0.3
             cases.append((A, E, o, apath))
+            if o['ignore_patterns'] and rng.random() < 0.4:
+                # the same texts again on the same comparison object, now without the patterns (and then with them
+                # once more): a verdict must not depend on what was compared before
+                cases.append((A, E, dict(o, ignore_patterns=[]), apath))
+                if rng.random() < 0.5:
+                    cases.append((A, E, o, apath))
         # corpus: hand-written boundary cases
         corpus = [
             (['a 12', 'b'], ['a 34', 'b'], dict(T.gen_opts(rng), ignore_patterns=[r'\d+'], preprocess=None), False),
